@@ -37,7 +37,7 @@ checks = {
  "C17": ("exploration", "exhaustive enumeration of Lua scripts from a handler grammar × SMTP dialogues on live sessions vs a hook-decision model",
          "Every script of the grammar (singles+pairs quick, full product thorough) × 10 dialogues, plus Go listeners before/after the Lua one.", "Trusted: the grammar's declared semantics per variant.", "3.C17"),
  "C19": ("model_checking", "stateless DFS over all schedules (preemption-bounded) of the assembled real services (smtp/pop3 Start, serve, sessions, Drain on an in-memory listener; hub; retention scanner) with clients, a canceller, drainers and a late client",
-         "Cancel is placed at every protocol state of an open session and Drain/Join/late dial are ordered in every way within the bound; oracle uses the client-observable definition of an open session (greeting received).", "Trusted: in-memory listener refuses dials after Close like TCP; scheduler assumptions as C09; TLS not exercised.", "3.C19"),
+         "Cancel is placed at every protocol state of an open session and Drain/Join/late dial are ordered in every way within the bound; oracle uses the client-observable definition of an open session (greeting received).", "Trusted: in-memory listener refuses dials after Close like TCP; scheduler assumptions as C09; TLS only as the POP3 STLS upgrade of scenario G11 (SMTP STARTTLS is not exercised).", "3.C19"),
  "C18": ("exploration", "exhaustive enumeration of HTML / CSS / text token sequences through the real sanitiser, output re-parsed by an independent HTML parser and an independent CSS-Syntax-3 declaration parser",
          "Every token sequence to the bound is sanitised and the re-parsed output checked for forbidden elements, handlers, javascript: URLs and non-allow-listed style properties; TextToHTML output must re-parse to the original text.", "Trusted: x/net/html as the browser's parser; the CSS oracle.", "3.C18"),
 }
